@@ -41,6 +41,12 @@ type verifJ struct {
 	keys  []string
 }
 
+// verifNumSamples: numbers are drawn from verifNumLexemes instead of symbolic digits (used where
+// the produced Float is compared with strconv.ParseFloat of the lexeme: a symbolic decimal-to-
+// float conversion is beyond the solver).
+var verifNumSamples bool
+var verifNumLexemes = []string{"0", "-7", "2.5", "0.1", "-0", "1e3", "12345678901234567890", "1.7976931348623157e308"}
+
 const verifTimeText = "2021-03-04T05:06:07.5Z"
 
 // verifGenJ draws a JSON value: null, true, false, a number (-?D or D.D with symbolic digits), a
@@ -55,6 +61,9 @@ func verifGenJ(name string, depth, maxElems, strLen int) verifJ {
 	kind := zzverif.Choice(name+".kind", n)
 	switch kind {
 	case vjNumber:
+		if verifNumSamples {
+			return verifJ{kind: kind, s: verifNumLexemes[zzverif.Choice(name+".numsample", len(verifNumLexemes))]}
+		}
 		d := zzverif.BytesN(name+".num", 2)
 		zzverif.Assume(zzverif.And(zzverif.And(d[0] >= '0', d[0] <= '9'), zzverif.And(d[1] >= '0', d[1] <= '9')))
 		switch zzverif.Choice(name+".numform", 3) {
@@ -460,6 +469,7 @@ func verifAlt(t octosql.Type, id octosql.TypeID) octosql.Type {
 }
 
 func verifJSONFile(checkValues bool) {
+	verifNumSamples = checkValues
 	zzverif.FixedSchedule(true) // C24 does not quantify over schedules (C23 does)
 	pre, post, miss := zzverif.Param("PRE"), zzverif.Param("POST"), zzverif.Param("MISS")
 	d, e, sl := zzverif.Param("D"), zzverif.Param("E"), zzverif.Param("S")
